@@ -31,6 +31,7 @@ RAW_REL = [P.ks(-1, "G"), P.on(-1, 0, 60, 80), P.wait(24), P.off(-1, 0, 50), P.o
            P.ks(-1, "G"), P.wait(48), P.off(-1, 0, 60), P.on(-1, 0, 69, 60), P.wait(96)]
 PRE = {}
 SECOND = P.notes_to_abs([(0, 40, 0, 24, 64), (0, 43, 100, 124, 64)], [], dur=192)
+NOTELESS = P.notes_to_abs([], [P.ts(0, 4, 4), P.ks(0, "D"), P.cc(5, 64, 100)], dur=192)
 OTHER = P.notes_to_abs([(0, 67, 2, 9, 75)], [], dur=12)
 
 IN_PLACE = ["set_channel", "transpose", "scale", "iter_edit_rel", "iter_edit_abs", "bar_transpose"]
@@ -148,7 +149,8 @@ def derive(route, ci, via):
         tr = Track(Sequence.sequences_split_bars([seq], 0)[0], name="t")
         return tr, tr.copy()
     if route == "composition_copy":
-        comp = Composition.from_sequences([seq, mk(SECOND)])
+        # the third track holds no note (a conductor track: signatures and a rest)
+        comp = Composition.from_sequences([seq, mk(SECOND), mk(NOTELESS)])
         return comp, comp.copy()
     if route == "split_first":
         return seq, seq.split([20 if short else 96])[0]
